@@ -96,7 +96,11 @@ static std::string hname(Entity e) {
     for (size_t k = 0; k < g_handles.size(); ++k) if (g_handles[k] == e) return "#" + std::to_string(k);
     return "r?";
 }
+static std::vector<std::string> g_job_do;      // structural calls the callback of the next runjob makes while it handles entity 0
+static World* g_job_world = nullptr;
+static void do_job_acts();
 static void job_callback(Job*, JobForEachArrayArg* a) {
+    if (a->invocation_index.entity_index == 0 && a->array_size > 0 && !g_job_do.empty()) do_job_acts();
     auto& ji = g_jobs[g_cur_job];
     std::ostringstream s;
     s << "t" << a->invocation_index.task_index << ":n" << a->invocation_index.entity_index << ":";
@@ -121,6 +125,18 @@ static Archetype* arch_of(World* w, std::istringstream& in) {
     while (in >> p) { do_register(p, 0); ids.push_back(g_cid[p]); }
     ComponentMask m; m.component_count = uint32_t(ids.size()); m.ids = ids.data();
     return getArchetype(w, m);
+}
+
+static void do_job_acts() {
+    World* w = g_job_world;
+    std::vector<std::string> acts; acts.swap(g_job_do);
+    for (const auto& line : acts) {
+        std::istringstream in(line); std::string k; int tid; in >> k >> tid;
+        if (k == "createarch" || k == "create") { Archetype* a = arch_of(w, in); Entity e = createEntity(w, a); g_handles.push_back(e); }
+        else if (k == "assignid") { int p; std::string h, v; in >> h >> p >> v; void* ptr = assignComponent(w, parse_handle(h), g_cid[p]); if (v != "-" && ptr) { int64_t x = std::stoll(v); memcpy(ptr, &x, 8); } }
+        else if (k == "removeid") { int p; std::string h; in >> h >> p; removeComponent(w, parse_handle(h), g_cid[p]); }
+        else if (k == "destroynow") { std::string h; in >> h; Entity e = parse_handle(h); destroyEntities(w, &e, 1, true); }
+    }
 }
 
 static void dump(World* w) {
@@ -185,8 +201,15 @@ static void run_script(const std::vector<std::string>& lines) {
             R << " chk=";
             { std::vector<ComponentId> cs = j.check; std::sort(cs.begin(), cs.end()); for (size_t i = 0; i < cs.size(); ++i) R << (i ? "," : "") << cs[i]; if (cs.empty()) R << "-"; }
         }
-        else if (op == "runjob") { size_t j; int mode; in >> j >> mode; g_cur_job = j; g_arrays.clear();
+        else if (op == "jobdo") { // jobdo <create|createarch|assignid|removeid|destroynow> <tid> ...: done by the callback of the next runjob at entity 0
+            std::string rest; std::getline(in, rest);
+            { std::istringstream r2(rest); std::string k; int tid; r2 >> k >> tid;
+              if (k == "create" || k == "createarch") { int p_; while (r2 >> p_) do_register(p_, 0); }
+              else if (k == "assignid" || k == "removeid") { std::string h; int p_; r2 >> h >> p_; do_register(p_, 0); } }
+            g_job_do.push_back(rest); }
+        else if (op == "runjob") { size_t j; int mode; in >> j >> mode; g_cur_job = j; g_arrays.clear(); g_job_world = w;
             runJob(g_jobs[j].job, w, mode == 1 ? kParallel : kCurrentThread);
+            g_job_do.clear();
             std::sort(g_arrays.begin(), g_arrays.end());
             R << "visits";
             for (auto& a : g_arrays) R << " " << a.second; }
